@@ -601,5 +601,31 @@ for _n in ('inet-address', 'inet-binding-address', 'inet-connection-address'):
 for _n in ('socket-address', 'socket-binding-address', 'socket-connection-address'):
     TABLE[_n] = (lambda d: lambda s: socket_address(s, d))(DEFAULTS[_n])
 
+
+
+def _app_key(s):
+    """reference for vf.dtsupport.remember_key"""
+    n = len(s)
+    if n == 0 or not is_ascii_alpha(s[0]):
+        raise Bad()
+    for i in range(1, n):
+        if not _alnum(s[i]):
+            raise Bad()
+    return s.lower()
+
+
+def _app_int(s):
+    """reference for vf.dtsupport.remember_int: ASCII digits only"""
+    if len(s) == 0:
+        raise Bad()
+    for ch in s:
+        if not is_ascii_digit(ch):
+            raise Bad()
+    return parse_int(s)
+
+
+TABLE['vf.dtsupport.remember_key'] = _app_key
+TABLE['vf.dtsupport.remember_int'] = _app_int
+
 # key-type converters must be idempotent
 KEY_NORMALISERS = ('basic-key', 'identifier', 'ipaddr-or-hostname', 'dotted-name', 'string')
